@@ -48,6 +48,34 @@ pub fn scenario(seed: u64, campaign: &'static str, prop: &'static str, idx: u64)
     sc
 }
 
+/// long histories of mostly ordinary requests on few workers: counters, caches and thresholds
+/// that only matter after many requests
+pub fn long_history(seed: u64, idx: u64) -> Scenario {
+    let mut rng = rng_for(seed, "C04", "long_histories", idx);
+    let mut sc = Scenario::base("C04", "long_histories", idx);
+    sc.engine = Engine::System;
+    sc.sched = pick_sched(&mut rng);
+    sc.workers = rng.range(1, 3);
+    sc.request_size = 10000;
+    sc.tree = small_tree(rng.next());
+    let n = *rng.pick(&[64usize, 100, 128, 129, 200, 256, 257, 300, 520]);
+    let targets = ["/file.txt", "/page.html", "/page", "/d/", "/", "/missing.txt", "/empty.txt", "/one.txt", "/big.bin"];
+    for i in 0..n {
+        let t = targets[rng.below(targets.len())];
+        let (class, bytes) = match rng.below(10) {
+            0 => mutated_request(&mut rng, t, 10000),
+            1 => ("range", req("GET", t, &[("Range", *rng.pick(&["bytes=0-3", "bytes=2-", "bytes=-4", "bytes=0-1,3-4"]))], b"")),
+            2 => ("head", req("HEAD", t, &[], b"")),
+            3 => ("options", req("OPTIONS", t, &[("Origin", "http://a.example")], b"")),
+            _ => ("get", get(t)),
+        };
+        // a few connections at a time
+        sc.conns.push(Conn::simple(i, (i / 3) as u32, if bytes.is_empty() { b"G".to_vec() } else { bytes }, class));
+    }
+    sc.probe = Probe::FollowUp { request: probe_request().into() };
+    sc
+}
+
 pub fn plan(tier: Tier, seed: u64) -> Vec<Campaign> {
     let mk = |name: &'static str, quick: u64, weight: u32| Campaign {
         name,
@@ -58,7 +86,17 @@ pub fn plan(tier: Tier, seed: u64) -> Vec<Campaign> {
         exhaustive: false,
         gen: Box::new(move |i| scenario(seed, name, "C04", i)),
     };
-    vec![mk("mutations", 6000, 6), mk("segmented", 1500, 2), mk("faulted", 1500, 2)]
+    let mut v = vec![mk("mutations", 6000, 6), mk("segmented", 1500, 2), mk("faulted", 1500, 2)];
+    v.push(Campaign {
+        name: "long_histories",
+        budget: match tier {
+            Tier::Quick => Budget::Count(160),
+            Tier::Thorough => Budget::Time(2),
+        },
+        exhaustive: false,
+        gen: Box::new(move |i| long_history(seed, i)),
+    });
+    v
 }
 
 pub fn plan_c10(tier: Tier, seed: u64) -> Vec<Campaign> {
